@@ -5,6 +5,7 @@ import DimModel.Lib.Operation
 import DimModel.Gen.TableC04
 import DimModel.Props.C06
 import DimModel.Proofs.C04
+import DimModel.Proofs.C04General
 namespace DimModel
 open Lib
 
@@ -313,5 +314,375 @@ example : ∃ (r : DimArray Int) (k1 k2 : Kind),
     simp only [hr, List.getD_cons_zero, List.getD_cons_succ] at h0 h1 m0 m1
     simp only [List.map_cons, List.map_nil, len3 _ _ _ _ (by decide) (h0 Label.none).1 m0,
       len3 _ _ _ _ (by decide) (h1 Label.none).1 m1]
+
+
+/-! ### end-to-end (round 4): `a op b` IN GENERAL - operands over arbitrary dimensions
+
+The operands may share all, some or none of their dimensions, list them in any order, and carry on each shared
+dimension label sets that are equal, overlapping, nested or disjoint, stored in any order.  Hypotheses, all
+decidable: both operands are `AlignInput` (distinct dimension names, unique labels, no `None` label, plain axes,
+no empty axis, values of the announced shape) and NO DIMENSION NAME CONTAINS A COMMA (`reshape`, which
+`align_dims` calls, reads a comma in a name as a request to group dimensions; see
+`operation_comma_name_counterexample` at the end of the file).  `operation` then
+* never fails (`operation_succeeds`),
+* returns the first operand's dimensions followed by those of the second that the first lacks, in the second's
+  order (`operation_dims`),
+* carries on every dimension the union of the labels the operands have on it, each once
+  (`operation_general_labels`; a dimension only one operand has keeps that operand's labels in their order,
+  `operation_unshared_labels`),
+* and holds at every coordinate `f` of the two operands' values at the labels found at this coordinate on each
+  operand's OWN dimensions, `nan` for an operand that lacks one of these labels (`operation_general_spec`):
+  an operand is replicated along the dimensions it lacks, by name, never by position.
+Special cases: disjoint dimensions give the outer product (`operation_disjoint_dims`); a second operand whose
+dimensions are among the first's is broadcast along the others (`operation_broadcast_sub`).
+The helper lemmas are in `DimModel/Proofs/C04String.lean` (comma-free names and `String.splitOn`),
+`DimModel/Proofs/C04Reshape.lean` (`reshape` towards more dimensions) and `DimModel/Proofs/C04General.lean`. -/
+
+/-- a well-formed pair can always be combined -/
+theorem operation_succeeds {α : Type} (nan : α) (f : α → α → α) (a b : DimArray α)
+    (ha : AlignInput a) (hb : AlignInput b)
+    (hca : ∀ d ∈ a.dims, ',' ∉ d.toList) (hcb : ∀ d ∈ b.dims, ',' ∉ d.toList) :
+    ∃ r k1 k2, operation nan f a b = .ok (r, k1, k2) := by
+  obtain ⟨r, k1, k2, _, hop, _⟩ := operation_general_full nan f a b ha hb hca hcb
+  exact ⟨r, k1, k2, hop⟩
+
+/-- RESULT DIMENSIONS: the first operand's dimensions in their order, then those of the second operand that the
+first lacks, in the second's order -/
+theorem operation_dims {α : Type} (nan : α) (f : α → α → α) (a b r : DimArray α) (k1 k2 : Kind)
+    (ha : AlignInput a) (hb : AlignInput b)
+    (hca : ∀ d ∈ a.dims, ',' ∉ d.toList) (hcb : ∀ d ∈ b.dims, ',' ∉ d.toList)
+    (h : operation nan f a b = .ok (r, k1, k2)) :
+    r.dims = a.dims ++ b.dims.filter (fun d => !a.dims.contains d) := by
+  obtain ⟨r', k1', k2', _, hop, _, _, hd, _⟩ := operation_general_full nan f a b ha hb hca hcb
+  rw [hop] at h
+  simp only [Except.ok.injEq, Prod.mk.injEq] at h
+  obtain ⟨rfl, _, _⟩ := h
+  exact hd
+
+/-- every dimension of an operand is a dimension of the result, each dimension once: the positions
+`r.dims.idxOf d` used by `restrictTo` below are in range -/
+theorem operation_dims_cover {α : Type} (nan : α) (f : α → α → α) (a b r : DimArray α) (k1 k2 : Kind)
+    (ha : AlignInput a) (hb : AlignInput b)
+    (hca : ∀ d ∈ a.dims, ',' ∉ d.toList) (hcb : ∀ d ∈ b.dims, ',' ∉ d.toList)
+    (h : operation nan f a b = .ok (r, k1, k2)) :
+    r.dims.Nodup ∧ (∀ d, d ∈ r.dims ↔ d ∈ a.dims ∨ d ∈ b.dims) ∧
+    (∀ d ∈ a.dims, r.dims.idxOf d < r.axes.length) ∧ (∀ d ∈ b.dims, r.dims.idxOf d < r.axes.length) := by
+  have hd := operation_dims nan f a b r k1 k2 ha hb hca hcb h
+  have hd' : r.dims = opDims a b := hd
+  have hlen : r.axes.length = r.dims.length := by simp [DimArray.dims]
+  refine ⟨hd' ▸ opDims_nodup a b ha.1 hb.1, fun d => hd' ▸ mem_opDims a b d, ?_, ?_⟩
+  · intro d hda
+    rw [hlen]
+    exact List.idxOf_lt_length_of_mem (hd' ▸ (mem_opDims a b d).mpr (Or.inl hda))
+  · intro d hdb
+    rw [hlen]
+    exact List.idxOf_lt_length_of_mem (hd' ▸ (mem_opDims a b d).mpr (Or.inr hdb))
+
+/-- LABEL-WISE COMPUTATION, IN GENERAL.  `restrictTo a.dims r.dims xs z` picks, for every dimension of `a` in
+`a`'s order, the entry of `xs` at the position of that dimension in the result.  The value of the result at
+index `j` is `f` of
+* `a`'s value at the labels found at `j` on `a`'s own dimensions (`alignVals`: the position of each label on
+  `a`'s axis; `nan` as soon as `a` lacks one of them), and
+* `b`'s value at the labels found at `j` on `b`'s own dimensions.
+The result has the dimensions of `operation_dims`, the common (union) labels on every dimension, a value array
+of the announced shape and no metadata -/
+theorem operation_general_spec {α : Type} (nan : α) (f : α → α → α) (a b r : DimArray α) (k1 k2 : Kind)
+    (ha : AlignInput a) (hb : AlignInput b)
+    (hca : ∀ d ∈ a.dims, ',' ∉ d.toList) (hcb : ∀ d ∈ b.dims, ',' ∉ d.toList)
+    (h : operation nan f a b = .ok (r, k1, k2)) :
+    r.dims = a.dims ++ b.dims.filter (fun d => !a.dims.contains d) ∧ r.attrs = [] ∧
+    (∃ commons : List Axis,
+      getAlignedAxes [a.axes, b.axes] .outer none false false = .ok commons ∧
+      commons.map (·.name) = r.dims ∧
+      r.axes.map (·.labels) = commons.map (·.labels)) ∧
+    r.vals.shape = r.axes.map (·.labels.length) ∧
+    ∀ j, InRange r.vals.shape j →
+      r.vals.get j =
+        f ((alignVals a (restrictTo a.dims r.dims (r.axes.map (·.labels)) []) nan).get (restrictTo a.dims r.dims j 0))
+          ((alignVals b (restrictTo b.dims r.dims (r.axes.map (·.labels)) []) nan).get (restrictTo b.dims r.dims j 0)) := by
+  obtain ⟨r', k1', k2', commons, hop, hg, hnames, hd, hat, hlab, hsh, hval⟩ :=
+    operation_general_full nan f a b ha hb hca hcb
+  rw [hop] at h
+  simp only [Except.ok.injEq, Prod.mk.injEq] at h
+  obtain ⟨rfl, _, _⟩ := h
+  exact ⟨hd, hat, ⟨commons, hg, hnames.trans hd.symm, hlab⟩, hsh, hval⟩
+
+/-- UNION OF LABELS: the axis of the result at every position carries each label once, and a label is there iff
+one of the operands has it on its axis of that name -/
+theorem operation_general_labels {α : Type} (nan : α) (f : α → α → α) (a b r : DimArray α) (k1 k2 : Kind)
+    (ha : AlignInput a) (hb : AlignInput b)
+    (hca : ∀ d ∈ a.dims, ',' ∉ d.toList) (hcb : ∀ d ∈ b.dims, ',' ∉ d.toList)
+    (h : operation nan f a b = .ok (r, k1, k2)) (k : Nat) (hk : k < r.axes.length) (v : Label) :
+    r.axes[k].labels.Nodup ∧
+    (v ∈ r.axes[k].labels ↔
+      (∃ ax ∈ a.axes, ax.name = r.axes[k].name ∧ v ∈ ax.labels) ∨
+      (∃ ax ∈ b.axes, ax.name = r.axes[k].name ∧ v ∈ ax.labels)) := by
+  obtain ⟨_, _, ⟨commons, hg, hnames, hlab⟩, _, _⟩ := operation_general_spec nan f a b r k1 k2 ha hb hca hcb h
+  have hin := alignInput_pair a b ha hb
+  have hkc : k < commons.length := by
+    have := congrArg List.length hlab
+    simp only [List.length_map] at this
+    omega
+  have e1 : r.axes[k].labels = commons[k].labels := by
+    have := congrArg (fun l => l[k]?) hlab
+    simpa [hk, hkc] using this
+  have e2 : commons[k].name = r.axes[k].name := by
+    have := congrArg (fun l => l[k]?) hnames
+    simpa [DimArray.dims, hk, hkc] using this
+  obtain ⟨hn, hout, _⟩ := (align_all_labels [a, b] .outer false hin commons hg).2.2 commons[k]
+    (List.getElem_mem hkc) v
+  rw [e1, ← e2]
+  refine ⟨hn, ?_⟩
+  rw [hout rfl]
+  constructor
+  · rintro ⟨x, hx, ax, hax, hname, hv⟩
+    simp only [List.mem_cons, List.not_mem_nil, or_false] at hx
+    rcases hx with rfl | rfl
+    · exact Or.inl ⟨ax, hax, hname, hv⟩
+    · exact Or.inr ⟨ax, hax, hname, hv⟩
+  · rintro (⟨ax, hax, hname, hv⟩ | ⟨ax, hax, hname, hv⟩)
+    · exact ⟨a, by simp, ax, hax, hname, hv⟩
+    · exact ⟨b, by simp, ax, hax, hname, hv⟩
+
+
+/-- a dimension that only ONE operand has keeps that operand's labels, in their stored order (the other operand is
+replicated along it) -/
+theorem operation_unshared_labels {α : Type} (nan : α) (f : α → α → α) (a b r : DimArray α) (k1 k2 : Kind)
+    (ha : AlignInput a) (hb : AlignInput b)
+    (hca : ∀ d ∈ a.dims, ',' ∉ d.toList) (hcb : ∀ d ∈ b.dims, ',' ∉ d.toList)
+    (h : operation nan f a b = .ok (r, k1, k2)) (k : Nat) (hk : k < r.axes.length) :
+    (∀ ax ∈ a.axes, ax.name = r.axes[k].name → r.axes[k].name ∉ b.dims → r.axes[k].labels = ax.labels) ∧
+    (∀ ax ∈ b.axes, ax.name = r.axes[k].name → r.axes[k].name ∉ a.dims → r.axes[k].labels = ax.labels) := by
+  obtain ⟨hd, _, ⟨commons, hg, hnames, hlab⟩, _, _⟩ := operation_general_spec nan f a b r k1 k2 ha hb hca hcb h
+  have hin := alignInput_pair a b ha hb
+  have hcn : (commons.map (·.name)).Nodup := (align_all_labels [a, b] .outer false hin commons hg).1
+  have hkc : k < commons.length := by
+    have := congrArg List.length hlab
+    simp only [List.length_map] at this
+    omega
+  have e1 : r.axes[k].labels = commons[k].labels := by
+    have := congrArg (fun l => l[k]?) hlab
+    simpa [hk, hkc] using this
+  have e2 : commons[k].name = r.axes[k].name := by
+    have := congrArg (fun l => l[k]?) hnames
+    simpa [DimArray.dims, hk, hkc] using this
+  have e3 : r.axes[k].labels = comLabels commons r.axes[k].name := by
+    rw [e1, ← e2, comLabels_of_mem commons hcn _ (List.getElem_mem hkc)]
+  constructor
+  · intro ax hax hname hnb
+    have hda : r.axes[k].name ∈ a.dims := hname ▸ List.mem_map.mpr ⟨ax, hax, rfl⟩
+    rw [e3, comLabels_only_first a b ha hb commons hg _ hda hnb]
+    have := axis_eq_of_name a.axes ha.1 ax hax _ (axisOf_mem a _ hda) (by rw [hname, axisOf_name a _ hda])
+    rw [← this]
+  · intro ax hax hname hna
+    have hdb : r.axes[k].name ∈ b.dims := hname ▸ List.mem_map.mpr ⟨ax, hax, rfl⟩
+    rw [e3, comLabels_only_second a b ha hb commons hg _ hna hdb]
+    have := axis_eq_of_name b.axes hb.1 ax hax _ (axisOf_mem b _ hdb) (by rw [hname, axisOf_name b _ hdb])
+    rw [← this]
+
+/-- OUTER PRODUCT: operands WITHOUT a common dimension.  The operation succeeds; the result lists `a`'s dimensions
+then `b`'s, with the operands' own labels (in their stored order) and the concatenated shape, and its value at
+`i ++ j` is `f (a[i]) (b[j])`: each operand is replicated along the other's dimensions, nothing is filled -/
+theorem operation_disjoint_dims {α : Type} (nan : α) (f : α → α → α) (a b : DimArray α)
+    (ha : AlignInput a) (hb : AlignInput b)
+    (hca : ∀ d ∈ a.dims, ',' ∉ d.toList) (hcb : ∀ d ∈ b.dims, ',' ∉ d.toList)
+    (hdis : ∀ d ∈ a.dims, d ∉ b.dims) :
+    ∃ r k1 k2, operation nan f a b = .ok (r, k1, k2) ∧
+      r.dims = a.dims ++ b.dims ∧
+      r.axes.map (·.labels) = a.axes.map (·.labels) ++ b.axes.map (·.labels) ∧
+      r.vals.shape = a.vals.shape ++ b.vals.shape ∧
+      ∀ i j, InRange a.vals.shape i → InRange b.vals.shape j →
+        r.vals.get (i ++ j) = f (a.vals.get i) (b.vals.get j) := by
+  obtain ⟨r, k1, k2, commons, hop, hg, hnames, hd, _, hlab, hsh, hval⟩ :=
+    operation_general_full nan f a b ha hb hca hcb
+  have hin := alignInput_pair a b ha hb
+  have hcn : (commons.map (·.name)).Nodup := (align_all_labels [a, b] .outer false hin commons hg).1
+  have hdis' : ∀ d ∈ b.dims, d ∉ a.dims := fun d hdb hda => hdis d hda hdb
+  have hD : opDims a b = a.dims ++ b.dims := by
+    unfold opDims
+    congr 1
+    rw [List.filter_eq_self]
+    intro d hdb
+    simpa using hdis' d hdb
+  have hd' : r.dims = a.dims ++ b.dims := hd.trans hD
+  have hlab' : r.axes.map (·.labels) = a.axes.map (·.labels) ++ b.axes.map (·.labels) := by
+    rw [hlab, ← map_comLabels commons hcn, hnames, hD, List.map_append,
+      ← labels_eq_map_axisOf a ha.1, ← labels_eq_map_axisOf b hb.1]
+    congr 1
+    · apply List.map_congr_left
+      intro d hda
+      exact comLabels_only_first a b ha hb commons hg d hda (hdis d hda)
+    · apply List.map_congr_left
+      intro d hdb
+      exact comLabels_only_second a b ha hb commons hg d (hdis' d hdb) hdb
+  have hsh' : r.vals.shape = a.vals.shape ++ b.vals.shape := by
+    rw [hsh, map_labels_length, hlab', List.map_append, ← map_labels_length, ← map_labels_length,
+      ← alignInput_shape a ha, ← alignInput_shape b hb]
+  refine ⟨r, k1, k2, hop, hd', hlab', hsh', ?_⟩
+  intro i j hi hj
+  have hij : InRange r.vals.shape (i ++ j) := hsh' ▸ inRange_append_c04 _ _ _ _ hi hj
+  have hla : (a.axes.map (·.labels)).length = a.dims.length := by simp [DimArray.dims]
+  have hlb : (b.axes.map (·.labels)).length = b.dims.length := by simp [DimArray.dims]
+  have hil : i.length = a.dims.length := by
+    rw [inRange_length_c04 _ _ hi, ha.2.1]; simp [DimArray.dims]
+  have hjl : j.length = b.dims.length := by
+    rw [inRange_length_c04 _ _ hj, hb.2.1]; simp [DimArray.dims]
+  rw [hval _ hij, hd', hlab',
+    restrictTo_append_left a.dims b.dims ha.1 _ _ hla [],
+    restrictTo_append_left a.dims b.dims ha.1 _ _ hil 0,
+    restrictTo_append_right a.dims b.dims hb.1 hdis' _ _ hla hlb [],
+    restrictTo_append_right a.dims b.dims hb.1 hdis' _ _ hil hjl 0,
+    ← (alignInput_valsInv nan a ha).2 i (alignInput_shape a ha ▸ hi),
+    ← (alignInput_valsInv nan b hb).2 j (alignInput_shape b hb ▸ hj)]
+
+/-- BROADCASTING ALONG MISSING DIMENSIONS: every dimension of `b` is a dimension of `a` (in any order).  The
+result has `a`'s dimensions, and its value at `j` is `f` of `a`'s value at the labels of `j` and `b`'s value at
+the labels found at `j` on `b`'s dimensions only: `b` is replicated along the dimensions it lacks -/
+theorem operation_broadcast_sub {α : Type} (nan : α) (f : α → α → α) (a b r : DimArray α) (k1 k2 : Kind)
+    (ha : AlignInput a) (hb : AlignInput b)
+    (hca : ∀ d ∈ a.dims, ',' ∉ d.toList) (hsub : ∀ d ∈ b.dims, d ∈ a.dims)
+    (h : operation nan f a b = .ok (r, k1, k2)) :
+    r.dims = a.dims ∧ r.vals.shape = r.axes.map (·.labels.length) ∧
+    ∀ j, InRange r.vals.shape j →
+      r.vals.get j =
+        f ((alignVals a (r.axes.map (·.labels)) nan).get j)
+          ((alignVals b (restrictTo b.dims a.dims (r.axes.map (·.labels)) []) nan).get (restrictTo b.dims a.dims j 0)) := by
+  obtain ⟨hd, _, _, hsh, hval⟩ :=
+    operation_general_spec nan f a b r k1 k2 ha hb hca (fun d hd => hca d (hsub d hd)) h
+  have hf : b.dims.filter (fun d => !a.dims.contains d) = [] := by
+    rw [List.filter_eq_nil_iff]
+    intro d hdb
+    simpa using hsub d hdb
+  have hd' : r.dims = a.dims := by rw [hd, hf, List.append_nil]
+  refine ⟨hd', hsh, ?_⟩
+  intro j hj
+  have hjl : j.length = a.dims.length := by
+    rw [inRange_length_c04 _ _ hj, hsh, ← hd']; simp [DimArray.dims]
+  have hll : (r.axes.map (·.labels)).length = a.dims.length := by
+    rw [← hd']; simp [DimArray.dims]
+  rw [hval j hj, hd', restrictTo_self a.dims ha.1 _ hll [], restrictTo_self a.dims ha.1 _ hjl 0]
+
+
+/-! non-vacuity of the general theorems: `exOpA` over (`x`, `y`) and `exOpC` over (`z`, `y`) - one shared dimension
+with overlapping labels stored in different orders, one private dimension each, the second operand listing the
+shared dimension LAST.  (`decide` cannot evaluate `operation`, see above; evaluated with `#eval`, `a + b` with
+`nan = -1` has the dims `x, y, z`, the labels `x = [3, 1]`, `y = [7, 5, 9]`, `z = [u, v]`.) -/
+def exOpC : DimArray Int :=
+  { axes := [{ name := "z", labels := [.str "u", .str "v"], kind := .U },
+             { name := "y", labels := [.num 5, .num 9], kind := .i }],
+    vals := ⟨[2, 2], fun j => 100 + 10 * j.getD 0 0 + j.getD 1 0⟩ }
+
+theorem exOpC_input : AlignInput exOpC := by unfold AlignInput exOpC; decide
+theorem exOpA_names : ∀ d ∈ exOpA.dims, ',' ∉ d.toList := by decide
+theorem exOpC_names : ∀ d ∈ exOpC.dims, ',' ∉ d.toList := by decide
+
+example : ∃ (r : DimArray Int) (k1 k2 : Kind),
+    operation (-1) (· + ·) exOpA exOpC = .ok (r, k1, k2) ∧
+    r.dims = ["x", "y", "z"] ∧ r.attrs = [] ∧
+    (r.axes.getD 0 default).labels = [.num 3, .num 1] ∧
+    (r.axes.getD 2 default).labels = [.str "u", .str "v"] ∧
+    (r.axes.getD 1 default).labels.Nodup ∧
+    (∀ v, v ∈ (r.axes.getD 1 default).labels ↔ v = .num 7 ∨ v = .num 5 ∨ v = .num 9) := by
+  obtain ⟨r, k1, k2, h⟩ :=
+    operation_succeeds (-1) (· + ·) exOpA exOpC exOpA_input exOpC_input exOpA_names exOpC_names
+  have hs := operation_general_spec (-1) (· + ·) exOpA exOpC r k1 k2 exOpA_input exOpC_input exOpA_names exOpC_names h
+  have hd : r.dims = ["x", "y", "z"] := by rw [hs.1]; decide
+  have hlen : r.axes.length = 3 := by
+    have := congrArg List.length hd
+    simpa [DimArray.dims] using this
+  have hl := fun k hk v => operation_general_labels (-1) (· + ·) exOpA exOpC r k1 k2 exOpA_input exOpC_input
+    exOpA_names exOpC_names h k hk v
+  have hu := fun k hk => operation_unshared_labels (-1) (· + ·) exOpA exOpC r k1 k2 exOpA_input exOpC_input
+    exOpA_names exOpC_names h k hk
+  refine ⟨r, k1, k2, h, hd, hs.2.1, ?_⟩
+  match hr : r.axes, hlen with
+  | [x0, x1, x2], _ =>
+    simp only [hr, List.length_cons, List.length_nil] at hl hu
+    simp only [DimArray.dims, hr, List.map_cons, List.map_nil, List.cons.injEq, and_true] at hd
+    obtain ⟨n0, n1, n2⟩ := hd
+    have u0 := (hu 0 (by omega)).1 { name := "x", labels := [.num 3, .num 1], kind := .i } (by simp [exOpA])
+      (by simp [n0]) (by simp [n0, exOpC, DimArray.dims])
+    have u2 := (hu 2 (by omega)).2 { name := "z", labels := [.str "u", .str "v"], kind := .U } (by simp [exOpC])
+      (by simp [n2]) (by simp [n2, exOpA, DimArray.dims])
+    have l1 := fun v => hl 1 (by omega) v
+    simp only [List.getElem_cons_zero, List.getElem_cons_succ] at u0 u2 l1
+    refine ⟨u0, u2, (l1 Label.none).1, ?_⟩
+    intro v
+    simp only [List.getD_cons_succ, List.getD_cons_zero]
+    rw [(l1 v).2, n1]
+    simp only [exOpA, exOpC, List.mem_cons, List.not_mem_nil, or_false]
+    constructor
+    · rintro (⟨ax, (rfl | rfl), hn, hv⟩ | ⟨ax, (rfl | rfl), hn, hv⟩)
+      · simp at hn
+      · simp only [List.mem_cons, List.not_mem_nil, or_false] at hv
+        rcases hv with h | h <;> simp [h]
+      · simp at hn
+      · simp only [List.mem_cons, List.not_mem_nil, or_false] at hv
+        rcases hv with h | h <;> simp [h]
+    · rintro (h | h | h)
+      · exact Or.inl ⟨_, Or.inr rfl, rfl, by simp [h]⟩
+      · exact Or.inl ⟨_, Or.inr rfl, rfl, by simp [h]⟩
+      · exact Or.inr ⟨_, Or.inr rfl, rfl, by simp [h]⟩
+
+/-! non-vacuity of `operation_disjoint_dims`: `x` against `z` - the outer product, cell by cell -/
+def exOpX : DimArray Int :=
+  { axes := [{ name := "x", labels := [.num 3, .num 1], kind := .i }], vals := ⟨[2], fun j => 10 * j.getD 0 0⟩ }
+def exOpZ : DimArray Int :=
+  { axes := [{ name := "z", labels := [.str "u", .str "v", .str "w"], kind := .U }],
+    vals := ⟨[3], fun j => 1 + j.getD 0 0⟩ }
+
+example : ∃ (r : DimArray Int) (k1 k2 : Kind),
+    operation (-1) (· + ·) exOpX exOpZ = .ok (r, k1, k2) ∧
+    r.dims = ["x", "z"] ∧ r.vals.shape = [2, 3] ∧
+    r.axes.map (·.labels) = [[.num 3, .num 1], [.str "u", .str "v", .str "w"]] ∧
+    r.vals.get [1, 2] = 13 ∧ r.vals.get [0, 1] = 2 := by
+  obtain ⟨r, k1, k2, h, hd, hl, hs, hv⟩ := operation_disjoint_dims (-1) (· + ·) exOpX exOpZ
+    (by unfold AlignInput exOpX; decide) (by unfold AlignInput exOpZ; decide) (by decide) (by decide) (by decide)
+  refine ⟨r, k1, k2, h, hd, hs, hl, ?_, ?_⟩
+  · exact hv [1] [2] (by decide) (by decide)
+  · exact hv [0] [1] (by decide) (by decide)
+
+
+/-! ### why the names must be comma-free
+
+Without the hypothesis on the names the success theorem is FALSE for the model: a plain dimension called `x,y`
+combined with an array over another dimension makes `align_dims` call `reshape` with the target `("x,y", "z")`,
+which the mirror of `reshape` reads as "group `x` and `y`" and refuses (`ValueError`: the axis `x,y` is not among
+`x, y, z`, so it is squeezed, and it is not a singleton).  NOTE for the correspondence: the Python `reshape` renames
+such an EXISTING dimension (`,` to `;`) before it splits the names, a branch the mirror does not have, so on names
+with a comma the mirror and the implementation differ (Python: `a + b` succeeds, `b + a` raises
+"mismatch between values and axes"); such names are outside the generated inputs. -/
+
+def exOpComma : DimArray Int :=
+  { axes := [{ name := "x,y", labels := [.num 3, .num 1], kind := .i }], vals := ⟨[2], fun j => 10 * j.getD 0 0⟩ }
+
+/-- the operand is well formed, only its dimension name contains a comma ... -/
+theorem exOpComma_input : AlignInput exOpComma ∧ AlignInput exOpZ ∧ ¬ (∀ d ∈ exOpComma.dims, ',' ∉ d.toList) := by
+  refine ⟨by unfold AlignInput exOpComma; decide, by unfold AlignInput exOpZ; decide, by decide⟩
+
+/-- ... and the operation with an array over another dimension fails (in the model) -/
+theorem operation_comma_name_counterexample : operation (-1) (· + ·) exOpComma exOpZ = .error .value := by
+  have t1 : align (-1) [exOpComma, exOpZ] .outer none false false = .ok [exOpComma, exOpZ] := by rfl
+  have t2 : getDims [exOpComma.axes, exOpZ.axes] = ["x,y", "z"] := by decide
+  have t3 : reshape exOpComma ["x,y", "z"] = .error .value := by
+    rw [reshape_eq]
+    have h0 : (["x,y", "z"] == exOpComma.dims) = false := by decide
+    have h1 : (["x,y", "z"].eraseDups.length != ["x,y", "z"].length) = false := by decide
+    have hf : ["x,y", "z"].flatMap splitOnComma = ["x", "y", "z"] := by
+      simp only [List.flatMap_cons, List.flatMap_nil, splitOnComma_xy, splitOnComma_no_comma "z" (by decide)]
+      rfl
+    have h2 : (["x", "y", "z"].eraseDups.length != ["x", "y", "z"].length) = false := by decide
+    rw [hf, unflattenAll_plain exOpComma (by decide)]
+    simp only [h0, h1, h2, Bool.false_eq_true, if_false]
+    rfl
+  have t4 : alignDims [exOpComma, exOpZ] = .error .value := by
+    unfold alignDims
+    have h : ¬ (([exOpComma, exOpZ].map (·.dims)).eraseDups.length ≤ 1) := by decide
+    simp only [h, if_false]
+    have e : List.map (fun x => x.axes) [exOpComma, exOpZ] = [exOpComma.axes, exOpZ.axes] := rfl
+    rw [e, t2, List.mapM_cons, t3]
+    rfl
+  rw [operation_eq, t1, ex_bind_ok, t4]
+  rfl
 
 end DimModel
